@@ -8,12 +8,12 @@ Local Open Scope string_scope.
 
 Definition observed_sites : list (string * string * string * string) :=
   [("goag/specification", "GetSecurity", "sr : SecurityRequirement", "13ea5fd1");
-   ("goag/specification", "NewComponents", "spec.Parameters : ParametersMap", "cebb0345");
+   ("goag/specification", "NewComponents", "spec.Parameters : ParametersMap", "01e76cf8");
    ("goag/specification", "NewSchema", "required : map[string]struct{}", "9d46b06c");
    ("goag/specification", "NewSchema", "schema.ExtensionProps.Extensions : map[string]interface{}", "f159cebc");
    ("goag/specification", "NewSecurityRequirements", "sr : SecurityRequirement", "90c28e7b");
-   ("goag/specification", "sortedKeys", "m : map[string]T", "e979cfd1");
-   ("goag", "Generator.Generate", "s.Variables : map[string]*ServerVariable", "d58336ef")].
+   ("goag/specification", "sortedKeys", "m : map[string]T", "b82d411c");
+   ("goag", "Generator.Generate", "s.Variables : map[string]*ServerVariable", "3b5ce473")].
 
 Definition observed_other : list (string * string * string) :=
   [("goag", "Generator.GenerateDir", "os.ReadDir");
